@@ -233,7 +233,26 @@ def validate_traces(trace_module, cfg, traces, timeout=1800, extra_env=None):
     return out, r
 
 
-def simulate(module, cfg, num, depth, seed, var="hist", timeout=600):
+def last_state(txt):
+    """variables of the last state in a TLC trace file / error trace, as a dict"""
+    idx = max(txt.rfind("\nSTATE_"), txt.rfind("\nState "))
+    if idx < 0:
+        return None
+    body = txt[idx:]
+    out = {}
+    parts = re.split(r"(?:^|\n)\s*/\\ (\w+) = ", body)
+    # parts: [junk, name1, val1, name2, val2, ...]
+    for k in range(1, len(parts) - 1, 2):
+        val = parts[k + 1]
+        val = re.split(r"\n\s*\n|\n=====|\nSTATE_|\n\\\*", val)[0].strip()
+        try:
+            out[parts[k]] = parse_tla_value(val)
+        except Exception:
+            pass
+    return out
+
+
+def simulate(module, cfg, num, depth, seed, var="hist", timeout=600, allvars=False):
     d = tempfile.mkdtemp(prefix="sim-", dir=scratch())
     for f in os.listdir(SPEC):
         if f.endswith(".tla") or f.endswith(".cfg"):
@@ -255,19 +274,10 @@ def simulate(module, cfg, num, depth, seed, var="hist", timeout=600):
     hists = []
     for f in sorted(os.listdir(os.path.join(d, "out"))):
         txt = open(os.path.join(d, "out", f)).read()
-        # last occurrence of "/\ hist = <value>" (value runs to the next "/\ name =" at col 0 or blank line)
-        idx = txt.rfind("/\\ %s = " % var)
-        if idx < 0:
-            idx = txt.rfind("%s = " % var)
-            if idx < 0:
-                continue
-        start = txt.index("=", idx) + 1
-        m = re.search(r"\n(/\\ \w+ =|\s*\n|STATE_|=====)", txt[start:])
-        end = start + m.start() if m else len(txt)
-        try:
-            hists.append(parse_tla_value(txt[start:end].strip()))
-        except Exception:
-            pass
+        st = last_state(txt)
+        if st is None or var not in st:
+            continue
+        hists.append(st if allvars else st[var])
     shutil.rmtree(d, True)
     return hists, out, time.time() - t0
 
